@@ -311,6 +311,7 @@ class Unit:
                     "manual": d.manual,
                     "loopify": o.get("loopify"),
                     "fuse": bool(o.get("fuse")),
+                    "eager": bool(o.get("eager")),
                 })
         return {"items": items}
 
